@@ -54,10 +54,12 @@ struct Lib {
     json: J,
     /// the MODEL's pretty rendering of the library's graph (`Pretty.pretty`), when the driver answered
     model_pretty: Option<String>,
+    /// does the library's JSON of its graph equal the MODEL's JSON of the same graph (`J.ofGraph`)? The CLI prints the library's
+    model_json_agrees: Option<bool>,
 }
 
 fn library(tsg: &str, src: &str, lazy: bool, globals: &[(String, String)], drv: &mut Driver) -> Lib {
-    let mut lib = Lib { load_ok: false, source_has_errors: false, exec_ok: false, pretty: String::new(), json: J::Null, model_pretty: None };
+    let mut lib = Lib { load_ok: false, source_has_errors: false, exec_ok: false, pretty: String::new(), json: J::Null, model_pretty: None, model_json_agrees: None };
     let file = match load(tsg) {
         Ok(Ok(f)) => f,
         _ => return lib,
@@ -81,12 +83,17 @@ fn library(tsg: &str, src: &str, lazy: bool, globals: &[(String, String)], drv: 
         // the pretty form is also rendered by the model from the exported graph: the CLI's text is compared with both
         let info = crate::tree::TreeInfo::new(&tree);
         drv.ask(&sexp::tagged("set-tree", vec![info.to_sexp(src)]));
-        let mp = drv.ask(&sexp::tagged("pretty", vec![crate::export::graph_sexp(&g, Some(&info))]));
-        (format!("{}", g.pretty_print()), serde_json::to_value(&g).unwrap(), mp.as_str().map(|x| x.to_string()))
+        let gs = crate::export::graph_sexp(&g, Some(&info));
+        let mp = drv.ask(&sexp::tagged("pretty", vec![gs.clone()]));
+        let jv = serde_json::to_value(&g).unwrap();
+        let mj = drv.ask(&sexp::tagged("json", vec![gs]));
+        let agrees = crate::props::c14::json_sexp(&jv, &info) == mj;
+        (format!("{}", g.pretty_print()), jv, mp.as_str().map(|x| x.to_string()), agrees)
     })));
-    if let Ok(Ok((p, mut j, mp))) = r {
+    if let Ok(Ok((p, mut j, mp, agrees))) = r {
         lib.exec_ok = true;
         lib.model_pretty = mp;
+        lib.model_json_agrees = Some(agrees);
         lib.pretty = p;
         normalise_ids(&mut j, &mut Vec::new());
         lib.json = j;
@@ -111,6 +118,7 @@ pub fn run(rep: &mut Report, tier: &str, seed: u64) {
     std::fs::create_dir_all(&work).expect("work dir");
     for pi in 0..n_pairs {
         let mut r = root.fork(pi as u64);
+        crate::gen::dsl::NO_SYNTAX_NODE_SETS.with(|c| c.set(true));
         let opts = Opts { fragment: true, fault_pct: if pi % 6 == 5 { 100 } else { 0 }, max_stanzas: 3, allow_print: false, universal: false, probe: false, scoped_heavy: false, keywordish_names: false, static_fault: 0 };
         let program = gen_program(&mut r, &pool, &opts);
         let mut tsg = program.text.clone();
@@ -267,6 +275,14 @@ pub fn run(rep: &mut Report, tier: &str, seed: u64) {
                 };
                 if jsonf && !check_json(&stdout) {
                     rep.fail("direct", "C19 the JSON on stdout differs from the library's serialisation", true, replay.clone());
+                }
+                // ... and the library's serialisation (shared with the CLI) is the model's JSON of the graph the library computed
+                if jsonf {
+                    match lib.model_json_agrees {
+                        Some(false) => rep.fail("disagreement", "C19 the JSON the CLI prints (the library's) differs from the model's JSON of the library's graph", true, replay.clone()),
+                        Some(true) => rep.count("printed-json-equals-model-json"),
+                        None => {}
+                    }
                 }
                 if jsonf && output {
                     let text = std::fs::read_to_string(&out_path).unwrap_or_default();
